@@ -433,6 +433,7 @@ class ExecCtx:
             cont = self.eval(t.value)
             newc = self.I.lib.setitem(self, cont, t.slice, v)
             if newc is not None:
+                self.I.notes.setdefault('mutated_in_place', []).append(cont)
                 self.assign(t.value, newc)
         else:
             raise OutOfSubset("assignment target %s" % type(t).__name__)
